@@ -1,13 +1,1004 @@
-//! C04 — not yet implemented
-use crate::core::{Ctx, Outcome};
-use serde_json::Value;
+//! C04 — Engine indices and exchange names translate both ways without mix-ups.
+//!
+//! E-SEQ over configurations (C11's 8-definition menu: 3 exchanges, shared asset names, `BTCUSDT` on two
+//! exchanges, Kraken calling btc `XBT`), five layers, all on the real code:
+//!
+//! * **map**      every insertion order of every subset (size <= N) -> `IndexedInstruments` ->
+//!                `generate_execution_instrument_map` for every exchange of the menu -> exhaustive sweep of every
+//!                global index (own, foreign, out of range) and every name (own, foreign, unknown) through
+//!                `find_*`.
+//! * **indexer**  per distinct set x exchange: `AccountEventIndexer::order_request` for every (exchange index,
+//!                instrument index); every inbound kind (balance, order key, trade, order snapshot in 12 states
+//!                incl. the three key-carrying `ApiError`s, cancel response, full snapshot, `account_event`
+//!                wrapper, client error) for every (exchange id, instrument name, asset name) of the pools.
+//! * **manager**  per distinct set x exchange (E-ENV): the real `ExecutionManager::run` polled by hand on a paused
+//!                current-thread runtime with a recording stub `ExecutionClient`; one open and one cancel for
+//!                every instrument index (own / foreign / out of range) and a mis-addressed exchange index; the
+//!                request seen by the client and the response event sent back are compared with the definitions.
+//! * **stream**   per distinct set x exchange (E-ENV): the real `ExecutionManager::init` (client snapshot + indexed,
+//!                reconnecting account stream, merged) polled by hand; the stub's account stream carries one event
+//!                of every kind for every pooled name and own-named events tagged with a foreign exchange id; the
+//!                delivered indexed events must be exactly the own-named ones, under the right indices.
+//! * **applied**  per distinct set x exchange: own-name balance / order / trade events are indexed and applied with
+//!                `EngineState::update_from_account`; the state is read back *by internal name*.
+//!
+//! Ground truth comes from the *definitions* (exchange name of an instrument / asset) and from
+//! `IndexedInstruments::find_*_index(exchange, internal name)` for "the engine index of that entity" (that
+//! table is C11's subject). Rules, each from a clause of the statement:
+//!   own-rejected / own-gives-other-entity   "translating ... to that exchange's own name and back yields the
+//!                                            original index"
+//!   foreign-translates                       "only indices belonging to that exchange translate at all"
+//!   order-request/*, manager/*               "an order request for an instrument reaches the exchange client
+//!                                            addressed to exactly that instrument's exchange name"
+//!   inbound/*, applied/*                     "every account event (balance, order, trade) is applied to the
+//!                                            instrument and asset it names"
+//! A layer is judged only where the layer below it was found correct for that (set, exchange), so that one
+//! defect is reported where it lives and not once per layer (`layers_not_judged_because_lower_layer_failed`).
+//! What happens to a request that cannot be translated (error, panic, drop) is not prescribed: the only demand is
+//! that the client never sees it.
 
-pub fn run(_ctx: &Ctx) -> Outcome {
-    eprintln!("MACHINERY: C04 not implemented");
-    std::process::exit(2)
+use super::c11::{Def, EX, Rec, Stub, StubCfg, StubScript, Viol, build_indexed, build_state, guarded, install_quiet_hook, menu, roles};
+use super::common::{strategy_id, t_plus};
+use crate::core::{Ctx, Distinct, Outcome, Samples};
+use crate::explore::env::{flag_waker, paused_rt, poll_quiesce};
+use barter::execution::{AccountStreamEvent, manager::ExecutionManager, request::ExecutionRequest};
+use barter_execution::{
+    AccountEvent, AccountEventKind, AccountSnapshot, InstrumentAccountSnapshot,
+    balance::{AssetBalance, Balance},
+    client::ExecutionClient,
+    error::{ApiError, ClientError, ConnectivityError, OrderError},
+    indexer::AccountEventIndexer,
+    map::{ExecutionInstrumentMap, generate_execution_instrument_map},
+    order::{
+        Order, OrderEvent, OrderKey, OrderKind, TimeInForce,
+        id::{ClientOrderId, OrderId},
+        request::{RequestCancel, RequestOpen},
+        state::{ActiveOrderState, Cancelled, InactiveOrderState, Open, OrderState},
+    },
+    trade::{AssetFees, Trade, TradeId},
+};
+use barter_instrument::{
+    Side,
+    asset::{AssetIndex, ExchangeAsset, QuoteAsset, name::{AssetNameExchange, AssetNameInternal}},
+    exchange::{ExchangeId, ExchangeIndex},
+    index::IndexedInstruments,
+    instrument::{InstrumentIndex, name::{InstrumentNameExchange, InstrumentNameInternal}},
+};
+use barter_integration::{channel::{Tx, mpsc_unbounded}, snapshot::Snapshot};
+use itertools::Itertools;
+use rayon::prelude::*;
+use rust_decimal::Decimal;
+use serde_json::{Value, json};
+use std::{
+    collections::{BTreeMap, BTreeSet},
+    fmt::Debug,
+    sync::{Arc, Mutex, atomic::{AtomicU64, Ordering}},
+    task::Poll,
+    time::Duration,
+};
+
+// ---------------------------------------------------------------------------------------------------------
+// ground truth from the definitions
+// ---------------------------------------------------------------------------------------------------------
+
+#[derive(Debug, Clone)]
+struct Ent<I> {
+    idx: I,
+    ex: ExchangeId,
+    name_ex: String,
+    name_int: String,
 }
 
-pub fn replay(_ctx: &Ctx, _case: &Value) {
-    eprintln!("MACHINERY: C04 not implemented");
-    std::process::exit(2)
+#[derive(Debug, Clone)]
+struct Truth {
+    exchanges: Vec<(ExchangeIndex, ExchangeId)>,
+    instruments: Vec<Ent<InstrumentIndex>>,
+    assets: Vec<Ent<AssetIndex>>,
+}
+
+impl Truth {
+    fn new(defs: &[&Def], ix: &IndexedInstruments) -> Self {
+        let exchanges = defs.iter().map(|d| d.exchange).sorted().dedup()
+            .map(|x| (ix.find_exchange_index(x).expect("harness: C11 index table"), x)).collect();
+        let instruments = defs.iter().map(|d| Ent {
+            idx: ix.find_instrument_index(d.exchange, &d.name_internal).expect("harness: C11 index table"),
+            ex: d.exchange,
+            name_ex: d.name_exchange.name().to_string(),
+            name_int: d.name_internal.name().to_string(),
+        }).collect();
+        let assets = defs.iter()
+            .flat_map(|d| roles(d).into_iter().map(move |(_, asset)| (d.exchange, asset)))
+            .sorted().dedup()
+            .map(|(ex, asset)| Ent {
+                idx: ix.find_asset_index(ex, &asset.name_internal).expect("harness: C11 index table"),
+                ex,
+                name_ex: asset.name_exchange.name().to_string(),
+                name_int: asset.name_internal.name().to_string(),
+            }).collect();
+        Self { exchanges, instruments, assets }
+    }
+    fn ex_index(&self, x: ExchangeId) -> Option<ExchangeIndex> {
+        self.exchanges.iter().find(|(_, id)| *id == x).map(|(i, _)| *i)
+    }
+    fn inst(&self, x: ExchangeId, name: &str) -> Option<InstrumentIndex> {
+        self.instruments.iter().find(|e| e.ex == x && e.name_ex == name).map(|e| e.idx)
+    }
+    fn asset(&self, x: ExchangeId, name: &str) -> Option<AssetIndex> {
+        self.assets.iter().find(|e| e.ex == x && e.name_ex == name).map(|e| e.idx)
+    }
+    fn inst_name(&self, x: ExchangeId, idx: usize) -> Option<InstrumentNameExchange> {
+        self.instruments.iter().find(|e| e.ex == x && e.idx.index() == idx).map(|e| InstrumentNameExchange::new(e.name_ex.as_str()))
+    }
+    fn asset_name(&self, x: ExchangeId, idx: usize) -> Option<AssetNameExchange> {
+        self.assets.iter().find(|e| e.ex == x && e.idx.index() == idx).map(|e| AssetNameExchange::new(e.name_ex.as_str()))
+    }
+}
+
+/// Name pools: every exchange name that occurs anywhere in the menu (so own and foreign ones) plus an unknown.
+struct Pools {
+    inst: Vec<InstrumentNameExchange>,
+    asset: Vec<AssetNameExchange>,
+}
+
+fn pools(menu: &[Def]) -> Pools {
+    let mut inst: Vec<String> = menu.iter().map(|d| d.name_exchange.name().to_string()).sorted().dedup().collect();
+    inst.push("NOPE".into());
+    let mut asset: Vec<String> = menu.iter().flat_map(|d| roles(d).into_iter().map(|(_, a)| a.name_exchange.name().to_string())).sorted().dedup().collect();
+    asset.push("NOPE".into());
+    Pools {
+        inst: inst.iter().map(|s| InstrumentNameExchange::new(s.as_str())).collect(),
+        asset: asset.iter().map(|s| AssetNameExchange::new(s.as_str())).collect(),
+    }
+}
+
+/// The one comparison rule of this module. `want = Some(v)`: the input names entities of this exchange and must
+/// translate to exactly `v`; `want = None`: the input names something foreign / unknown and must not translate.
+fn judge<T: PartialEq + Debug, E: Debug>(kind: &str, want: Option<T>, got: Result<T, E>, input: impl Fn() -> String, out: &mut Vec<Viol>) {
+    match (want, got) {
+        (Some(w), Ok(g)) if w == g => {}
+        (None, Err(_)) => {}
+        (Some(w), Ok(g)) => out.push((format!("C04/{kind}/own-gives-other-entity"), format!("{}: got {g:?}, expected {w:?}", input()))),
+        (Some(w), Err(e)) => out.push((format!("C04/{kind}/own-rejected"), format!("{}: got Err({e:?}), expected {w:?}", input()))),
+        (None, Ok(g)) => out.push((format!("C04/{kind}/foreign-translates"), format!("{}: got {g:?}, expected an error (not an entity of this exchange)", input()))),
+    }
+}
+
+// ---------------------------------------------------------------------------------------------------------
+// layer "map"
+// ---------------------------------------------------------------------------------------------------------
+
+fn check_map(truth: &Truth, ix: &IndexedInstruments, x: ExchangeId, pools: &Pools, evals: &mut u64) -> (Vec<Viol>, Option<ExecutionInstrumentMap>) {
+    let mut out = Vec::new();
+    let built = guarded(|| generate_execution_instrument_map(ix, x));
+    let Some(xi) = truth.ex_index(x) else {
+        if matches!(built, Ok(Ok(_))) {
+            out.push(("C04/map/built-for-absent-exchange".into(), format!("{x} has no instrument but a map was generated")));
+        }
+        return (out, None);
+    };
+    let map = match built {
+        Ok(Ok(m)) => m,
+        other => {
+            out.push(("C04/map/cannot-build-for-defined-exchange".into(), format!("{x}: {:?}", other.map(|r| r.map(|_| ())))));
+            return (out, None);
+        }
+    };
+    let here = |what: &str| format!("map of {x} ({xi}), {what}");
+
+    // exchange index <-> exchange id
+    for e in 0..=truth.exchanges.len() {
+        let want = (ExchangeIndex(e) == xi).then_some(x);
+        judge("exchange/index-to-id", want, map.find_exchange_id(ExchangeIndex(e)), || here(&format!("find_exchange_id({e})")), &mut out);
+        *evals += 1;
+    }
+    for y in EX.iter().chain([ExchangeId::Mock].iter()) {
+        let want = (*y == x).then_some(xi);
+        judge("exchange/id-to-index", want, map.find_exchange_index(*y), || here(&format!("find_exchange_index({y})")), &mut out);
+        *evals += 1;
+    }
+    // instruments: every global index (incl. one out of range), every pooled name
+    for g in 0..=ix.instruments().len() {
+        let want = truth.inst_name(x, g);
+        judge("instrument/index-to-name", want, map.find_instrument_name_exchange(InstrumentIndex(g)).cloned(),
+            || here(&format!("find_instrument_name_exchange({g}) [instrument {g} is {:?}]", truth.instruments.iter().find(|e| e.idx.index() == g).map(|e| (e.ex, e.name_ex.clone())))), &mut out);
+        *evals += 1;
+    }
+    for n in &pools.inst {
+        let want = truth.inst(x, n.name());
+        judge("instrument/name-to-index", want, map.find_instrument_index(n), || here(&format!("find_instrument_index({n})")), &mut out);
+        *evals += 1;
+    }
+    // assets
+    for g in 0..=ix.assets().len() {
+        let want = truth.asset_name(x, g);
+        judge("asset/index-to-name", want, map.find_asset_name_exchange(AssetIndex(g)).cloned(),
+            || here(&format!("find_asset_name_exchange({g}) [asset {g} is {:?}]", truth.assets.iter().find(|e| e.idx.index() == g).map(|e| (e.ex, e.name_ex.clone())))), &mut out);
+        *evals += 1;
+    }
+    for n in &pools.asset {
+        let want = truth.asset(x, n.name());
+        judge("asset/name-to-index", want, map.find_asset_index(n), || here(&format!("find_asset_index({n})")), &mut out);
+        *evals += 1;
+    }
+    // the name lists handed to the client at initialisation
+    let got: BTreeSet<String> = map.exchange_instruments().map(|n| n.name().to_string()).collect();
+    let want: BTreeSet<String> = truth.instruments.iter().filter(|e| e.ex == x).map(|e| e.name_ex.clone()).collect();
+    if got != want || map.exchange_instruments().count() != want.len() {
+        out.push(("C04/map/instrument-listing-wrong".into(), here(&format!("exchange_instruments() = {got:?}, expected {want:?}"))));
+    }
+    let got: BTreeSet<String> = map.exchange_assets().map(|n| n.name().to_string()).collect();
+    let want: BTreeSet<String> = truth.assets.iter().filter(|e| e.ex == x).map(|e| e.name_ex.clone()).collect();
+    if got != want || map.exchange_assets().count() != want.len() {
+        out.push(("C04/map/asset-listing-wrong".into(), here(&format!("exchange_assets() = {got:?}, expected {want:?}"))));
+    }
+    (out, Some(map))
+}
+
+// ---------------------------------------------------------------------------------------------------------
+// layer "indexer": generic event constructors (same shape for names and for indices)
+// ---------------------------------------------------------------------------------------------------------
+
+const N_API: usize = 7;
+fn api_uses(v: usize) -> (bool, bool) {
+    (v == 4 || v == 5, v == 6) // (carries an asset key, carries an instrument key)
+}
+fn api_error<A: Clone, I: Clone>(v: usize, asset: &A, inst2: &I) -> ApiError<A, I> {
+    match v {
+        0 => ApiError::RateLimit,
+        1 => ApiError::OrderRejected("r".into()),
+        2 => ApiError::OrderAlreadyCancelled,
+        3 => ApiError::OrderAlreadyFullyFilled,
+        4 => ApiError::AssetInvalid(asset.clone(), "x".into()),
+        5 => ApiError::BalanceInsufficient(asset.clone(), "x".into()),
+        _ => ApiError::InstrumentInvalid(inst2.clone(), "x".into()),
+    }
+}
+
+/// Order states 0..5 carry no key; 5.. = OpenFailed(Rejected(api_error(v-5))).
+const N_STATE: usize = 5 + N_API;
+fn state_uses(v: usize) -> (bool, bool) {
+    if v < 5 { (false, false) } else { api_uses(v - 5) }
+}
+fn order_state<A: Clone, I: Clone>(v: usize, asset: &A, inst2: &I) -> OrderState<A, I> {
+    match v {
+        0 => OrderState::active(Open { id: OrderId::new("o1"), time_exchange: t_plus(1), filled_quantity: Decimal::ZERO }),
+        1 => OrderState::inactive(Cancelled { id: OrderId::new("o1"), time_exchange: t_plus(1) }),
+        2 => OrderState::fully_filled(),
+        3 => OrderState::expired(),
+        4 => OrderState::inactive(OrderError::Connectivity(ConnectivityError::Timeout)),
+        _ => OrderState::inactive(OrderError::Rejected(api_error(v - 5, asset, inst2))),
+    }
+}
+/// Cancel results 0 = Ok, 1 = connectivity error, 2.. = Rejected(api_error(v-2)).
+const N_CANCEL: usize = 2 + N_API;
+fn cancel_uses(v: usize) -> (bool, bool) {
+    if v < 2 { (false, false) } else { api_uses(v - 2) }
+}
+fn cancel_state<A: Clone, I: Clone>(v: usize, asset: &A, inst2: &I) -> Result<Cancelled, OrderError<A, I>> {
+    match v {
+        0 => Ok(Cancelled { id: OrderId::new("o1"), time_exchange: t_plus(1) }),
+        1 => Err(OrderError::Connectivity(ConnectivityError::Timeout)),
+        _ => Err(OrderError::Rejected(api_error(v - 2, asset, inst2))),
+    }
+}
+fn key<E, I>(ex: E, inst: I, cid: &str) -> OrderKey<E, I> {
+    OrderKey { exchange: ex, instrument: inst, strategy: strategy_id(), cid: ClientOrderId::new(cid) }
+}
+fn order<E, I, S>(ex: E, inst: I, cid: &str, state: S) -> Order<E, I, S> {
+    Order {
+        key: key(ex, inst, cid),
+        side: Side::Sell,
+        price: Decimal::from(101),
+        quantity: Decimal::from(3),
+        kind: OrderKind::Limit,
+        time_in_force: TimeInForce::GoodUntilCancelled { post_only: true },
+        state,
+    }
+}
+fn trade<I>(inst: I) -> Trade<QuoteAsset, I> {
+    Trade {
+        id: TradeId::new("t1"),
+        order_id: OrderId::new("o1"),
+        instrument: inst,
+        strategy: strategy_id(),
+        time_exchange: t_plus(1),
+        side: Side::Buy,
+        price: Decimal::from(100),
+        quantity: Decimal::ONE,
+        fees: AssetFees::quote_fees(Decimal::new(1, 1)),
+    }
+}
+fn balance<A>(asset: A, n: i64) -> AssetBalance<A> {
+    AssetBalance { asset, balance: Balance::new(Decimal::from(9000 + n), Decimal::from(n)), time_exchange: t_plus(1) }
+}
+fn request_open() -> RequestOpen {
+    RequestOpen { side: Side::Buy, price: Decimal::from(99), quantity: Decimal::from(2), kind: OrderKind::Limit, time_in_force: TimeInForce::ImmediateOrCancel }
+}
+
+fn check_indexer(truth: &Truth, ix: &IndexedInstruments, x: ExchangeId, map: &ExecutionInstrumentMap, pools: &Pools, outbound: bool, inbound: bool, evals: &mut u64) -> Vec<Viol> {
+    let mut out = Vec::new();
+    let xi = truth.ex_index(x).unwrap();
+    let indexer = AccountEventIndexer::new(Arc::new(map.clone()));
+    let here = |what: String| format!("indexer of {x} ({xi}), {what}");
+    let ex_pool: Vec<ExchangeId> = truth.exchanges.iter().map(|(_, id)| *id).chain([ExchangeId::Mock]).collect();
+
+    // ---- outbound: order_request for every (exchange index, instrument index), open and cancel
+    for e in (0..=truth.exchanges.len()).filter(|_| outbound) {
+        for g in 0..=ix.instruments().len() {
+            let name = truth.inst_name(x, g);
+            let want_key = (ExchangeIndex(e) == xi).then_some(()).and(name.clone());
+            let open = OrderEvent { key: key(ExchangeIndex(e), InstrumentIndex(g), "c-open"), state: request_open() };
+            let got = indexer.order_request(&open).map(|r| (r.key.exchange, r.key.instrument.clone(), r.key.strategy, r.key.cid, r.state));
+            let want = want_key.clone().map(|n| (x, n, strategy_id(), ClientOrderId::new("c-open"), request_open()));
+            judge("order-request", want, got, || here(format!("order_request(open, exchange {e}, instrument {g})")), &mut out);
+            let cancel = OrderEvent { key: key(ExchangeIndex(e), InstrumentIndex(g), "c-cancel"), state: RequestCancel { id: Some(OrderId::new("o9")) } };
+            let got = indexer.order_request(&cancel).map(|r| (r.key.exchange, r.key.instrument.clone(), r.key.strategy, r.key.cid, r.state));
+            let want = want_key.map(|n| (x, n, strategy_id(), ClientOrderId::new("c-cancel"), RequestCancel { id: Some(OrderId::new("o9")) }));
+            judge("order-request", want, got, || here(format!("order_request(cancel, exchange {e}, instrument {g})")), &mut out);
+            *evals += 2;
+        }
+    }
+
+    // ---- inbound
+    if !inbound {
+        return out;
+    }
+    let ti = |n: &InstrumentNameExchange| truth.inst(x, n.name());
+    let ta = |n: &AssetNameExchange| truth.asset(x, n.name());
+    for (k, a) in pools.asset.iter().enumerate() {
+        let want = ta(a).map(|i| balance(i, k as i64));
+        judge("inbound/balance", want, indexer.asset_balance(balance(a.clone(), k as i64)), || here(format!("asset_balance({a})")), &mut out);
+        *evals += 1;
+    }
+    for n in &pools.inst {
+        let want = ti(n).map(trade);
+        judge("inbound/trade", want, indexer.trade(trade(n.clone())), || here(format!("trade({n})")), &mut out);
+        *evals += 1;
+    }
+    for y in &ex_pool {
+        let own_ex = *y == x;
+        for n in &pools.inst {
+            let want = own_ex.then_some(()).and(ti(n)).map(|i| key(xi, i, "k"));
+            judge("inbound/order-key", want, indexer.order_key(key(*y, n.clone(), "k")), || here(format!("order_key({y}, {n})")), &mut out);
+            *evals += 1;
+            // order snapshots in every state; key-carrying states with every pooled asset / instrument name
+            for v in 0..N_STATE {
+                let (ua, ui) = state_uses(v);
+                let assets: &[AssetNameExchange] = if ua { &pools.asset } else { &pools.asset[..1] };
+                let insts: &[InstrumentNameExchange] = if ui { &pools.inst } else { &pools.inst[..1] };
+                for a in assets {
+                    for n2 in insts {
+                        let want = (|| {
+                            let i = own_ex.then_some(()).and(ti(n))?;
+                            let ai = if ua { ta(a)? } else { AssetIndex(0) };
+                            let i2 = if ui { ti(n2)? } else { InstrumentIndex(0) };
+                            Some(order(xi, i, "s", order_state(v, &ai, &i2)))
+                        })();
+                        let input = order(*y, n.clone(), "s", order_state(v, a, n2));
+                        judge("inbound/order-snapshot", want, indexer.order_snapshot(input), || here(format!("order_snapshot({y}, {n}, state {v}, asset {a}, instrument {n2})")), &mut out);
+                        *evals += 1;
+                    }
+                }
+            }
+            for v in 0..N_CANCEL {
+                let (ua, ui) = cancel_uses(v);
+                let assets: &[AssetNameExchange] = if ua { &pools.asset } else { &pools.asset[..1] };
+                let insts: &[InstrumentNameExchange] = if ui { &pools.inst } else { &pools.inst[..1] };
+                for a in assets {
+                    for n2 in insts {
+                        let want = (|| {
+                            let i = own_ex.then_some(()).and(ti(n))?;
+                            let ai = if ua { ta(a)? } else { AssetIndex(0) };
+                            let i2 = if ui { ti(n2)? } else { InstrumentIndex(0) };
+                            Some(OrderEvent { key: key(xi, i, "r"), state: cancel_state(v, &ai, &i2) })
+                        })();
+                        let input = OrderEvent { key: key(*y, n.clone(), "r"), state: cancel_state(v, a, n2) };
+                        judge("inbound/cancel-response", want, indexer.order_response_cancel(input), || here(format!("order_response_cancel({y}, {n}, result {v}, asset {a}, instrument {n2})")), &mut out);
+                        *evals += 1;
+                    }
+                }
+            }
+        }
+        // account_event wrapper: the outer exchange id decides, then the inner names
+        for a in &pools.asset {
+            let want = own_ex.then_some(()).and(ta(a)).map(|i| AccountEvent { exchange: xi, kind: AccountEventKind::BalanceSnapshot(Snapshot(balance(i, 1))) });
+            let input = AccountEvent { exchange: *y, kind: AccountEventKind::BalanceSnapshot(Snapshot(balance(a.clone(), 1))) };
+            judge("inbound/account-event", want, indexer.account_event(input), || here(format!("account_event({y}, balance {a})")), &mut out);
+            *evals += 1;
+        }
+        for n in &pools.inst {
+            let want = own_ex.then_some(()).and(ti(n)).map(|i| AccountEvent { exchange: xi, kind: AccountEventKind::Trade(trade(i)) });
+            let input = AccountEvent { exchange: *y, kind: AccountEventKind::Trade(trade(n.clone())) };
+            judge("inbound/account-event", want, indexer.account_event(input), || here(format!("account_event({y}, trade {n})")), &mut out);
+            // the wrapper's exchange and the order key's exchange may disagree: both must be this exchange
+            for y2 in &ex_pool {
+                let both = own_ex && *y2 == x;
+                let want = both.then_some(()).and(ti(n)).map(|i| AccountEvent { exchange: xi, kind: AccountEventKind::OrderSnapshot(Snapshot(order(xi, i, "w", order_state(0, &AssetIndex(0), &InstrumentIndex(0))))) });
+                let input = AccountEvent { exchange: *y, kind: AccountEventKind::OrderSnapshot(Snapshot(order(*y2, n.clone(), "w", order_state(0, &pools.asset[0], &pools.inst[0])))) };
+                judge("inbound/account-event", want, indexer.account_event(input), || here(format!("account_event({y}, order snapshot keyed ({y2}, {n}))")), &mut out);
+                let want = both.then_some(()).and(ti(n)).map(|i| AccountEvent { exchange: xi, kind: AccountEventKind::OrderCancelled(OrderEvent { key: key(xi, i, "w"), state: cancel_state(0, &AssetIndex(0), &InstrumentIndex(0)) }) });
+                let input = AccountEvent { exchange: *y, kind: AccountEventKind::OrderCancelled(OrderEvent { key: key(*y2, n.clone(), "w"), state: cancel_state(0, &pools.asset[0], &pools.inst[0]) }) };
+                judge("inbound/account-event", want, indexer.account_event(input), || here(format!("account_event({y}, cancel response keyed ({y2}, {n}))")), &mut out);
+                *evals += 2;
+            }
+            *evals += 1;
+        }
+        // full account snapshots: every ordered pair of asset names, every ordered pair of instrument names
+        for (a1, a2) in pools.asset.iter().cartesian_product(pools.asset.iter()) {
+            let want = (|| {
+                own_ex.then_some(())?;
+                Some(AccountSnapshot { exchange: xi, balances: vec![balance(ta(a1)?, 1), balance(ta(a2)?, 2)], instruments: vec![] })
+            })();
+            let input = AccountSnapshot { exchange: *y, balances: vec![balance(a1.clone(), 1), balance(a2.clone(), 2)], instruments: vec![] };
+            judge("inbound/account-snapshot", want, indexer.snapshot(input), || here(format!("snapshot({y}, balances [{a1}, {a2}])")), &mut out);
+            *evals += 1;
+        }
+        for (n1, n2) in pools.inst.iter().cartesian_product(pools.inst.iter()) {
+            let want = (|| {
+                own_ex.then_some(())?;
+                let (i1, i2) = (ti(n1)?, ti(n2)?);
+                Some(AccountSnapshot {
+                    exchange: xi,
+                    balances: vec![],
+                    instruments: vec![
+                        InstrumentAccountSnapshot { instrument: i1, orders: vec![order(xi, i1, "a", order_state(0, &AssetIndex(0), &InstrumentIndex(0)))] },
+                        InstrumentAccountSnapshot { instrument: i2, orders: vec![] },
+                    ],
+                })
+            })();
+            let input = AccountSnapshot {
+                exchange: *y,
+                balances: vec![],
+                instruments: vec![
+                    InstrumentAccountSnapshot { instrument: n1.clone(), orders: vec![order(*y, n1.clone(), "a", order_state(0, &pools.asset[0], &pools.inst[0]))] },
+                    InstrumentAccountSnapshot { instrument: n2.clone(), orders: vec![] },
+                ],
+            };
+            judge("inbound/account-snapshot", want, indexer.snapshot(input), || here(format!("snapshot({y}, instruments [{n1} with order, {n2}])")), &mut out);
+            *evals += 1;
+        }
+    }
+    // client errors carrying keys
+    for v in 0..N_API {
+        let (ua, ui) = api_uses(v);
+        let assets: &[AssetNameExchange] = if ua { &pools.asset } else { &pools.asset[..1] };
+        let insts: &[InstrumentNameExchange] = if ui { &pools.inst } else { &pools.inst[..1] };
+        for a in assets {
+            for n2 in insts {
+                let want = (|| {
+                    let ai = if ua { ta(a)? } else { AssetIndex(0) };
+                    let i2 = if ui { ti(n2)? } else { InstrumentIndex(0) };
+                    Some(ClientError::Api(api_error(v, &ai, &i2)))
+                })();
+                judge("inbound/client-error", want, indexer.client_error(ClientError::Api(api_error(v, a, n2))), || here(format!("client_error(api {v}, asset {a}, instrument {n2})")), &mut out);
+                *evals += 1;
+            }
+        }
+    }
+    out
+}
+
+// ---------------------------------------------------------------------------------------------------------
+// layer "manager" (E-ENV): the real ExecutionManager::run with a recording stub client
+// ---------------------------------------------------------------------------------------------------------
+
+/// Drive one fresh manager of exchange `x` with one request; returns (client log, response events, panic).
+fn drive_manager(
+    x: ExchangeId,
+    map: &ExecutionInstrumentMap,
+    request: ExecutionRequest,
+    reject_with: Option<barter_execution::error::UnindexedOrderError>,
+) -> (Vec<Rec>, Vec<AccountStreamEvent>, Option<String>) {
+    fn go<const X: usize>(map: &ExecutionInstrumentMap, request: ExecutionRequest, cfg: StubCfg) -> (Vec<AccountStreamEvent>, Option<String>) {
+        let (req_tx, req_rx) = mpsc_unbounded::<ExecutionRequest>();
+        let (resp_tx, mut resp_rx) = mpsc_unbounded::<AccountStreamEvent>();
+        let manager = ExecutionManager::new(
+            req_rx.into_stream(),
+            Duration::from_secs(5),
+            resp_tx,
+            Arc::new(Stub::<X>::new(cfg)),
+            AccountEventIndexer::new(Arc::new(map.clone())),
+        );
+        let mut fut = Box::pin(manager.run());
+        let (flag, waker) = flag_waker();
+        assert!(matches!(poll_quiesce(fut.as_mut(), &flag, &waker), Poll::Pending), "harness: idle manager must be pending");
+        req_tx.send(request).expect("harness: manager alive");
+        let panic = match guarded(|| poll_quiesce(fut.as_mut(), &flag, &waker)) {
+            Ok(Poll::Pending) => None,
+            Ok(Poll::Ready(())) => Some("manager terminated".to_string()),
+            Err(p) => Some(p),
+        };
+        let mut events = Vec::new();
+        while let Ok(ev) = resp_rx.rx.try_recv() {
+            events.push(ev);
+        }
+        (events, panic)
+    }
+    let cfg: StubCfg = Arc::new(Mutex::new(StubScript { log: vec![], reject_with, stream_events: vec![] }));
+    let xpos = EX.iter().position(|e| *e == x).unwrap();
+    let (events, panic) = match xpos {
+        0 => go::<0>(map, request, cfg.clone()),
+        1 => go::<1>(map, request, cfg.clone()),
+        _ => go::<2>(map, request, cfg.clone()),
+    };
+    let log = cfg.lock().unwrap().log.clone();
+    (log, events, panic)
+}
+
+fn check_manager(truth: &Truth, ix: &IndexedInstruments, x: ExchangeId, map: &ExecutionInstrumentMap, runs: &mut u64) -> Vec<Viol> {
+    let mut out = Vec::new();
+    let xi = truth.ex_index(x).unwrap();
+    let rt = paused_rt();
+    let _g = rt.enter();
+    let own_asset = truth.assets.iter().find(|e| e.ex == x).unwrap().clone();
+    // addressed exchange index: the right one, and (once per instrument) a wrong one
+    let wrong_e = ExchangeIndex((xi.index() + 1) % (truth.exchanges.len() + 1));
+    for g in 0..=ix.instruments().len() {
+        let name = truth.inst_name(x, g);
+        for (e, is_open, reject) in [(xi, true, false), (xi, false, false), (xi, true, true), (xi, false, true), (wrong_e, true, false)] {
+            if e == xi && reject && name.is_none() {
+                continue;
+            }
+            let cid = format!("m{g}");
+            let request = if is_open {
+                ExecutionRequest::Open(OrderEvent { key: key(e, InstrumentIndex(g), &cid), state: request_open() })
+            } else {
+                ExecutionRequest::Cancel(OrderEvent { key: key(e, InstrumentIndex(g), &cid), state: RequestCancel { id: None } })
+            };
+            let reject_with = reject.then(|| OrderError::Rejected(ApiError::BalanceInsufficient(AssetNameExchange::new(own_asset.name_ex.as_str()), "x".into())));
+            let (log, events, panic) = drive_manager(x, map, request, reject_with);
+            *runs += 1;
+            let here = format!("manager of {x} ({xi}), {} addressed (exchange {e}, instrument {g}){}", if is_open { "open" } else { "cancel" }, if reject { ", client rejects" } else { "" });
+            let want_name = if e == xi { name.clone() } else { None };
+            match want_name {
+                None => {
+                    // not an instrument of this exchange (or not addressed to it): the client must never see it
+                    if !log.is_empty() {
+                        let cause = if e == xi { "foreign-instrument/reaches-client" } else { "foreign-exchange-index/reaches-client" };
+                        out.push((format!("C04/manager/{cause}"), format!("{here}: client received {log:?}")));
+                    }
+                }
+                Some(n) => {
+                    let want_rec = if is_open {
+                        Rec::Open { stub: EX.iter().position(|y| *y == x).unwrap(), exchange: x, instrument: n.name().to_string(), cid: cid.clone() }
+                    } else {
+                        Rec::Cancel { stub: EX.iter().position(|y| *y == x).unwrap(), exchange: x, instrument: n.name().to_string(), cid: cid.clone() }
+                    };
+                    if log.is_empty() {
+                        out.push(("C04/manager/own-instrument/never-reaches-client".into(), format!("{here}: client saw nothing; manager: {panic:?}")));
+                        continue;
+                    }
+                    if log != vec![want_rec.clone()] {
+                        out.push(("C04/manager/own-instrument/client-addressed-with-other-name".into(), format!("{here}: client received {log:?}, expected {want_rec:?}")));
+                        continue;
+                    }
+                    // the answer travels back under the original engine keys
+                    let want_ev = if is_open {
+                        let state: OrderState = if reject {
+                            OrderState::inactive(OrderError::Rejected(ApiError::BalanceInsufficient(own_asset.idx, "x".into())))
+                        } else {
+                            OrderState::active(Open { id: OrderId::new("stub-order"), time_exchange: t_plus(2), filled_quantity: Decimal::ZERO })
+                        };
+                        let r = request_open();
+                        AccountStreamEvent::Item(AccountEvent {
+                            exchange: xi,
+                            kind: AccountEventKind::OrderSnapshot(Snapshot(Order {
+                                key: key(xi, InstrumentIndex(g), &cid), side: r.side, price: r.price, quantity: r.quantity, kind: r.kind, time_in_force: r.time_in_force, state,
+                            })),
+                        })
+                    } else {
+                        AccountStreamEvent::Item(AccountEvent {
+                            exchange: xi,
+                            kind: AccountEventKind::OrderCancelled(OrderEvent {
+                                key: key(xi, InstrumentIndex(g), &cid),
+                                state: if reject {
+                                    Err(OrderError::Rejected(ApiError::BalanceInsufficient(own_asset.idx, "x".into())))
+                                } else {
+                                    Ok(Cancelled { id: OrderId::new("stub-order"), time_exchange: t_plus(2) })
+                                },
+                            }),
+                        })
+                    };
+                    if events != vec![want_ev.clone()] {
+                        let cause = if events.is_empty() { "missing" } else { "indexed-to-other-entity" };
+                        out.push((format!("C04/manager/response/{cause}"), format!("{here}: response events {events:?}, expected {want_ev:?}; manager: {panic:?}")));
+                    }
+                }
+            }
+        }
+    }
+    out
+}
+
+// ---------------------------------------------------------------------------------------------------------
+// layer "stream" (E-ENV): ExecutionManager::init -> snapshot + IndexedAccountStream, polled by hand
+// ---------------------------------------------------------------------------------------------------------
+
+fn check_stream(truth: &Truth, x: ExchangeId, map: &ExecutionInstrumentMap, pools: &Pools, evals: &mut u64) -> Vec<Viol> {
+    use futures::StreamExt;
+    let mut out = Vec::new();
+    let xi = truth.ex_index(x).unwrap();
+    // script: one event of every kind for every pooled name (own, foreign, unknown), tagged with this exchange,
+    // plus own-named events tagged with a foreign exchange id
+    let mut script: Vec<barter_execution::UnindexedAccountEvent> = Vec::new();
+    let mut want: Vec<AccountEvent> = Vec::new();
+    for (k, a) in pools.asset.iter().enumerate() {
+        script.push(AccountEvent { exchange: x, kind: AccountEventKind::BalanceSnapshot(Snapshot(balance(a.clone(), k as i64))) });
+        if let Some(i) = truth.asset(x, a.name()) {
+            want.push(AccountEvent { exchange: xi, kind: AccountEventKind::BalanceSnapshot(Snapshot(balance(i, k as i64))) });
+        }
+    }
+    for n in &pools.inst {
+        let own = truth.inst(x, n.name());
+        script.push(AccountEvent { exchange: x, kind: AccountEventKind::OrderSnapshot(Snapshot(order(x, n.clone(), "st", order_state(0, &pools.asset[0], n)))) });
+        script.push(AccountEvent { exchange: x, kind: AccountEventKind::Trade(trade(n.clone())) });
+        script.push(AccountEvent { exchange: x, kind: AccountEventKind::OrderCancelled(OrderEvent { key: key(x, n.clone(), "st"), state: cancel_state(0, &pools.asset[0], n) }) });
+        if let Some(i) = own {
+            want.push(AccountEvent { exchange: xi, kind: AccountEventKind::OrderSnapshot(Snapshot(order(xi, i, "st", order_state(0, &AssetIndex(0), &i)))) });
+            want.push(AccountEvent { exchange: xi, kind: AccountEventKind::Trade(trade(i)) });
+            want.push(AccountEvent { exchange: xi, kind: AccountEventKind::OrderCancelled(OrderEvent { key: key(xi, i, "st"), state: cancel_state(0, &AssetIndex(0), &i) }) });
+            // same names, but the event says it comes from another exchange: must not be attributed to this one
+            let other = EX.iter().find(|y| **y != x).copied().unwrap();
+            script.push(AccountEvent { exchange: other, kind: AccountEventKind::Trade(trade(n.clone())) });
+        }
+    }
+    // the initial snapshot echoes the names the client was initialised with
+    let snapshot = AccountEvent {
+        exchange: xi,
+        kind: AccountEventKind::Snapshot(AccountSnapshot {
+            exchange: xi,
+            balances: truth.assets.iter().filter(|e| e.ex == x).map(|e| AssetBalance { asset: e.idx, balance: Balance::default(), time_exchange: super::common::t0() }).sorted().collect(),
+            instruments: truth.instruments.iter().filter(|e| e.ex == x).map(|e| InstrumentAccountSnapshot { instrument: e.idx, orders: vec![] }).sorted().collect(),
+        }),
+    };
+
+    fn go<const X: usize>(map: &ExecutionInstrumentMap, cfg: StubCfg) -> Result<Vec<AccountStreamEvent>, String> {
+        let (_req_tx, req_rx) = mpsc_unbounded::<ExecutionRequest>();
+        let (flag, waker) = flag_waker();
+        let mut init = Box::pin(ExecutionManager::init(
+            req_rx.into_stream(),
+            Duration::from_secs(5),
+            Arc::new(Stub::<X>::new(cfg)),
+            AccountEventIndexer::new(Arc::new(map.clone())),
+            barter_data::streams::consumer::STREAM_RECONNECTION_POLICY,
+        ));
+        let (_manager, stream) = match guarded(|| poll_quiesce(init.as_mut(), &flag, &waker))? {
+            Poll::Ready(Ok(pair)) => pair,
+            Poll::Ready(Err(e)) => return Err(format!("init failed: {e:?}")),
+            Poll::Pending => panic!("harness: ExecutionManager::init stayed pending with an immediate stub"),
+        };
+        let mut stream = Box::pin(stream);
+        let mut got = Vec::new();
+        loop {
+            let mut next = stream.next();
+            match guarded(|| poll_quiesce(std::pin::Pin::new(&mut next), &flag, &waker))? {
+                Poll::Ready(Some(ev)) => got.push(ev),
+                Poll::Ready(None) => return Err("account stream ended".into()),
+                Poll::Pending => return Ok(got),
+            }
+            assert!(got.len() < 10_000, "harness: runaway account stream");
+        }
+    }
+    let rt = paused_rt();
+    let _g = rt.enter();
+    let cfg: StubCfg = Arc::new(Mutex::new(StubScript { log: vec![], reject_with: None, stream_events: script }));
+    let got = match EX.iter().position(|e| *e == x).unwrap() {
+        0 => go::<0>(map, cfg),
+        1 => go::<1>(map, cfg),
+        _ => go::<2>(map, cfg),
+    };
+    *evals += 1;
+    let here = format!("account stream of {x} ({xi})");
+    let got = match got {
+        Ok(g) => g,
+        Err(e) => {
+            out.push(("C04/stream/breaks".into(), format!("{here}: {e}")));
+            return out;
+        }
+    };
+    // normalise: list order inside the snapshot and order of events are not part of the statement
+    let norm = |ev: &AccountEvent| -> String {
+        let mut ev = ev.clone();
+        if let AccountEventKind::Snapshot(s) = &mut ev.kind {
+            s.balances.sort();
+            s.instruments.sort();
+        }
+        format!("{ev:?}")
+    };
+    let mut got_items: Vec<String> = Vec::new();
+    for ev in &got {
+        match ev {
+            AccountStreamEvent::Item(item) => got_items.push(norm(item)),
+            AccountStreamEvent::Reconnecting(_) => out.push(("C04/stream/breaks".into(), format!("{here}: reconnecting notice without a disconnect"))),
+        }
+    }
+    let mut want_items: Vec<String> = want.iter().chain([&snapshot]).map(norm).collect();
+    got_items.sort();
+    want_items.sort();
+    if let Some(missing) = want_items.iter().find(|w| !got_items.contains(w)) {
+        out.push(("C04/stream/own-event-lost-or-misindexed".into(), format!("{here}: expected event not delivered: {missing}")));
+    }
+    if let Some(extra) = got_items.iter().find(|g| !want_items.contains(g)) {
+        out.push(("C04/stream/foreign-or-misindexed-event-delivered".into(), format!("{here}: delivered event that no own-named input justifies: {extra}")));
+    }
+    if out.is_empty() && got_items.len() != want_items.len() {
+        out.push(("C04/stream/event-count".into(), format!("{here}: {} events delivered, {} expected", got_items.len(), want_items.len())));
+    }
+    out
+}
+
+// ---------------------------------------------------------------------------------------------------------
+// layer "applied": indexed events land on the entity they name (state read back by internal name)
+// ---------------------------------------------------------------------------------------------------------
+
+fn check_applied(truth: &Truth, ix: &IndexedInstruments, x: ExchangeId, map: &ExecutionInstrumentMap, evals: &mut u64) -> Vec<Viol> {
+    let mut out = Vec::new();
+    let indexer = AccountEventIndexer::new(Arc::new(map.clone()));
+    let Ok(base) = build_state(ix) else { return out }; // C11's subject
+    let asset_key = |e: &Ent<AssetIndex>| ExchangeAsset::<AssetNameInternal>::new(e.ex, AssetNameInternal::new(e.name_int.as_str()));
+    for (k, own) in truth.assets.iter().filter(|e| e.ex == x).enumerate() {
+        let input = AccountEvent { exchange: x, kind: AccountEventKind::BalanceSnapshot(Snapshot(balance(AssetNameExchange::new(own.name_ex.as_str()), k as i64))) };
+        let Ok(ev) = indexer.account_event(input) else { continue }; // reported by layer indexer
+        let mut s = base.clone();
+        *evals += 1;
+        if let Err(p) = guarded(|| { s.update_from_account(&ev); }) {
+            out.push(("C04/applied/balance/panics".into(), format!("{x} balance for {}: {p}", own.name_ex)));
+            continue;
+        }
+        for other in &truth.assets {
+            let before = base.assets.0.get(&asset_key(other)).and_then(|st| st.balance.as_ref().map(|b| b.value));
+            let after = s.assets.0.get(&asset_key(other)).and_then(|st| st.balance.as_ref().map(|b| b.value));
+            let is_target = other.ex == own.ex && other.name_int == own.name_int;
+            let want = if is_target { Some(balance((), k as i64).balance) } else { before };
+            if after != want {
+                out.push(("C04/applied/balance/lands-on-other-entity".into(),
+                    format!("{x} balance event naming {}: asset ({}, {}) holds {after:?}, expected {want:?}", own.name_ex, other.ex, other.name_int)));
+            }
+        }
+    }
+    for own in truth.instruments.iter().filter(|e| e.ex == x) {
+        let n = InstrumentNameExchange::new(own.name_ex.as_str());
+        let inputs = [
+            ("order", AccountEvent { exchange: x, kind: AccountEventKind::OrderSnapshot(Snapshot(order(x, n.clone(), "ap", order_state(0, &AssetNameExchange::new("-"), &n)))) }),
+            ("trade", AccountEvent { exchange: x, kind: AccountEventKind::Trade(trade(n.clone())) }),
+        ];
+        for (what, input) in inputs {
+            let Ok(ev) = indexer.account_event(input) else { continue };
+            let mut s = base.clone();
+            *evals += 1;
+            if let Err(p) = guarded(|| { s.update_from_account(&ev); }) {
+                out.push((format!("C04/applied/{what}/panics"), format!("{x} {what} for {}: {p}", own.name_ex)));
+                continue;
+            }
+            for other in &truth.instruments {
+                let st = s.instruments.0.get(&InstrumentNameInternal::new(other.name_int.as_str()));
+                let touched = st.map(|st| if what == "order" { st.orders.0.contains_key(&ClientOrderId::new("ap")) } else { st.position.current.is_some() });
+                if touched != Some(other.name_int == own.name_int) {
+                    out.push((format!("C04/applied/{what}/lands-on-other-entity"),
+                        format!("{x} {what} event naming {}: instrument {} touched={touched:?}", own.name_ex, other.name_int)));
+                }
+            }
+        }
+    }
+    out
+}
+
+// ---------------------------------------------------------------------------------------------------------
+// driver
+// ---------------------------------------------------------------------------------------------------------
+
+fn eval_map_layer(menu: &[Def], pools: &Pools, seq: &[usize], only: Option<usize>, evals: &mut u64) -> Vec<(usize, Vec<Viol>)> {
+    let defs: Vec<&Def> = seq.iter().map(|&i| &menu[i]).collect();
+    let ix = build_indexed(seq, menu).expect("harness: C11 index table builds");
+    let truth = Truth::new(&defs, &ix);
+    (0..EX.len())
+        .filter(|xp| only.is_none_or(|o| o == *xp))
+        .map(|xp| {
+            let mut n = 0u64;
+            let v = guarded(|| check_map(&truth, &ix, EX[xp], pools, &mut n).0)
+                .unwrap_or_else(|p| vec![("C04/map/lookup-panics".into(), format!("map of {}: {p}", EX[xp]))]);
+            *evals += n;
+            (xp, v)
+        })
+        .collect()
+}
+
+/// Result of the three deeper layers for one (set, exchange).
+#[derive(Default)]
+struct Deep {
+    viols: Vec<(&'static str, Viol)>,
+    idx_evals: u64,
+    mgr_runs: u64,
+    app_evals: u64,
+    stream_runs: u64,
+    /// layers not judged because the layer they are built on already failed for this (set, exchange)
+    gated: u64,
+    /// informational: what the un-judged manager layer does with an own-instrument request (abstracted)
+    consequences: BTreeSet<String>,
+    map_fingerprint: String,
+    sample: Value,
+}
+
+/// Layers indexer / manager / applied for one distinct set x exchange. To keep one defect from being reported
+/// once per layer, a layer is judged only where the translation it is built on was found correct:
+/// outbound `order_request` needs the map's index->name direction, the inbound kinds need name->index, the
+/// manager needs both indexer directions, `applied` needs the inbound direction.
+fn eval_deep(menu: &[Def], pools: &Pools, set: &[usize], xp: usize) -> Option<Deep> {
+    let defs: Vec<&Def> = set.iter().map(|&i| &menu[i]).collect();
+    let ix = build_indexed(set, menu).expect("harness: C11 index table builds");
+    let truth = Truth::new(&defs, &ix);
+    let x = EX[xp];
+    let mut scratch = 0u64;
+    let (map_viols, map) = guarded(|| check_map(&truth, &ix, x, pools, &mut scratch))
+        .unwrap_or_else(|p| (vec![("C04/map/lookup-panics".into(), format!("map of {x}: {p}"))], None));
+    let Some(map) = map else {
+        // exchange not part of this set (or its map cannot be built: reported)
+        if map_viols.is_empty() {
+            return None;
+        }
+        return Some(Deep { viols: map_viols.into_iter().map(|v| ("map", v)).collect(), ..Default::default() });
+    };
+    let dirty = |needle: &[&str]| map_viols.iter().any(|(sig, _)| needle.iter().any(|n| sig.contains(n)));
+    let out_ok = !dirty(&["/index-to-name/", "/index-to-id/", "/lookup-panics"]);
+    let in_ok = !dirty(&["/name-to-index/", "/id-to-index/", "/lookup-panics"]);
+    let mut d = Deep {
+        // the map layer for this set in canonical insertion order (sets larger than the permutation bound
+        // are only seen here)
+        viols: map_viols.iter().cloned().map(|v| ("map", v)).collect(),
+        map_fingerprint: format!("{:?}|{:?}|{:?}|{:?}", map.exchange, map.assets, map.instruments,
+            map.instrument_names.iter().map(|(k, v)| (k.name().to_string(), v.index())).sorted().collect::<Vec<_>>()),
+        sample: json!({"set": set, "exchange": x.as_str(), "exchange_index": map.exchange.key.index(),
+            "instruments": truth.instruments.iter().filter(|e| e.ex == x).map(|e| json!([e.idx.index(), e.name_ex])).collect::<Vec<_>>(),
+            "assets": truth.assets.iter().filter(|e| e.ex == x).map(|e| json!([e.idx.index(), e.name_ex])).collect::<Vec<_>>()}),
+        ..Default::default()
+    };
+    d.gated += (!out_ok) as u64 + (!in_ok) as u64;
+    let mut n = 0u64;
+    let idx_viols = guarded(|| check_indexer(&truth, &ix, x, &map, pools, out_ok, in_ok, &mut n))
+        .unwrap_or_else(|p| vec![("C04/inbound/indexer-panics".into(), format!("indexer of {x}: {p}"))]);
+    d.idx_evals = n;
+    if !out_ok {
+        // not judged (the map layer already reported the cause); record what reaches the client end to end
+        let rt = paused_rt();
+        let _g = rt.enter();
+        for own in truth.instruments.iter().filter(|e| e.ex == x) {
+            let req = ExecutionRequest::Open(OrderEvent { key: key(map.exchange.key, own.idx, "note"), state: request_open() });
+            let (log, _, panic) = drive_manager(x, &map, req, None);
+            d.mgr_runs += 1;
+            let abstracted = match (log.first(), panic) {
+                (Some(Rec::Open { instrument, .. }), _) if *instrument == own.name_ex => continue,
+                (Some(_), _) => "open for an own instrument reaches the client under ANOTHER instrument's exchange name".to_string(),
+                (None, Some(p)) => format!("open for an own instrument never reaches the client; ExecutionManager::run panics: {}",
+                    p.chars().filter(|c| !c.is_ascii_digit()).collect::<String>()),
+                (None, None) => "open for an own instrument never reaches the client (silently dropped)".to_string(),
+            };
+            d.consequences.insert(abstracted);
+        }
+    }
+    let out_clean = out_ok && !idx_viols.iter().any(|(sig, _)| sig.starts_with("C04/order-request/"));
+    let in_clean = in_ok && !idx_viols.iter().any(|(sig, _)| sig.starts_with("C04/inbound/"));
+    d.viols.extend(idx_viols.into_iter().map(|v| ("indexer", v)));
+    if out_clean && in_clean {
+        d.viols.extend(check_manager(&truth, &ix, x, &map, &mut d.mgr_runs).into_iter().map(|v| ("manager", v)));
+    } else {
+        d.gated += 1;
+    }
+    if in_clean {
+        d.viols.extend(check_stream(&truth, x, &map, pools, &mut d.stream_runs).into_iter().map(|v| ("stream", v)));
+        d.viols.extend(check_applied(&truth, &ix, x, &map, &mut d.app_evals).into_iter().map(|v| ("applied", v)));
+    } else {
+        d.gated += 1;
+    }
+    Some(d)
+}
+
+pub fn run(ctx: &Ctx) -> Outcome {
+    install_quiet_hook();
+    let menu = menu();
+    let pools = pools(&menu);
+    let max_perm: usize = ctx.tier.pick(5, 8);
+
+    // ---- layer map: every insertion order of every subset up to max_perm definitions
+    let map_evals = AtomicU64::new(0);
+    let configs = AtomicU64::new(0);
+    let distinct = Distinct::default();
+    let samples = Samples::new(100_000); // candidates; sorted and cut to 6 below (deterministic under parallelism)
+    for k in 1..=max_perm.min(menu.len()) {
+        let perms: Vec<Vec<usize>> = (0..menu.len()).permutations(k).collect();
+        perms.into_par_iter().for_each(|seq| {
+            let mut n = 0u64;
+            for (xp, viols) in eval_map_layer(&menu, &pools, &seq, None, &mut n) {
+                for (sig, detail) in viols {
+                    ctx.violate(sig, detail, json!({"layer": "map", "seq": seq, "exchange": xp}));
+                }
+            }
+            map_evals.fetch_add(n, Ordering::Relaxed);
+            configs.fetch_add(1, Ordering::Relaxed);
+        });
+    }
+
+    // ---- layers indexer / manager / applied: every distinct set x every exchange it uses
+    let idx_evals = AtomicU64::new(0);
+    let mgr_runs = AtomicU64::new(0);
+    let app_evals = AtomicU64::new(0);
+    let stream_runs = AtomicU64::new(0);
+    let deep_cases = AtomicU64::new(0);
+    let gated = AtomicU64::new(0);
+    let consequences: Mutex<BTreeSet<String>> = Mutex::new(BTreeSet::new());
+    (1u32..(1 << menu.len())).into_par_iter().for_each(|mask| {
+        let set: Vec<usize> = (0..menu.len()).filter(|i| mask & (1 << i) != 0).collect();
+        for xp in 0..EX.len() {
+            let Some(d) = eval_deep(&menu, &pools, &set, xp) else { continue };
+            // distinct outcome = the translation table this exchange ended up with
+            if !d.map_fingerprint.is_empty() {
+                distinct.add(&d.map_fingerprint);
+                deep_cases.fetch_add(1, Ordering::Relaxed);
+            }
+            if mask % 37 == 5 && !d.sample.is_null() {
+                samples.offer(|| d.sample.clone());
+            }
+            for (layer, (sig, detail)) in d.viols {
+                let case = if layer == "map" { json!({"layer": "map", "seq": set, "exchange": xp}) } else { json!({"layer": layer, "set": set, "exchange": xp}) };
+                ctx.violate(sig, detail, case);
+            }
+            idx_evals.fetch_add(d.idx_evals, Ordering::Relaxed);
+            mgr_runs.fetch_add(d.mgr_runs, Ordering::Relaxed);
+            app_evals.fetch_add(d.app_evals, Ordering::Relaxed);
+            stream_runs.fetch_add(d.stream_runs, Ordering::Relaxed);
+            gated.fetch_add(d.gated, Ordering::Relaxed);
+            consequences.lock().unwrap().extend(d.consequences);
+        }
+    });
+
+    let total = map_evals.load(Ordering::Relaxed) + idx_evals.load(Ordering::Relaxed) + mgr_runs.load(Ordering::Relaxed) + app_evals.load(Ordering::Relaxed) + stream_runs.load(Ordering::Relaxed);
+    Outcome {
+        level: "exploration",
+        coverage: json!({
+            "evaluations": total,
+            "map_configurations": configs.load(Ordering::Relaxed),
+            "map_lookups": map_evals.load(Ordering::Relaxed),
+            "max_permutation_size": max_perm,
+            "deep_cases_set_x_exchange": deep_cases.load(Ordering::Relaxed),
+            "indexer_translations": idx_evals.load(Ordering::Relaxed),
+            "manager_runs": mgr_runs.load(Ordering::Relaxed),
+            "applied_events": app_evals.load(Ordering::Relaxed),
+            "account_stream_runs": stream_runs.load(Ordering::Relaxed),
+            "layers_not_judged_because_lower_layer_failed": gated.load(Ordering::Relaxed),
+            "end_to_end_consequences_where_manager_layer_was_not_judged": consequences.lock().unwrap().iter().cloned().collect::<Vec<_>>(),
+            "distinct_nontrivial": distinct.len(),
+            "exhaustive": true,
+            "rule": "every insertion order of every subset (<= max_permutation_size) of the 8-definition menu x every exchange's ExecutionInstrumentMap x every global index / pooled name through find_*; every distinct subset x exchange through AccountEventIndexer (outbound order_request for every (exchange index, instrument index); inbound kinds x every pooled exchange id / instrument name / asset name), through ExecutionManager::run and ExecutionManager::init's account stream with a recording / scripted stub client (paused runtime, manual polling) and through EngineState::update_from_account",
+            "samples": samples.take().into_iter().sorted_by_key(|v| v.to_string()).take(6).collect::<Vec<_>>(),
+        }),
+        assumptions: vec![
+            "the engine index of an entity is the one IndexedInstruments assigns (C11)".into(),
+            "an exchange names an instrument / asset one way; exchange names may repeat across exchanges".into(),
+            "the fate of an untranslatable request (error, panic, drop) is not prescribed; only that the client never receives it".into(),
+            "menu of 8 definitions over 3 exchanges; stub client answers immediately (timeouts are C07's subject)".into(),
+        ],
+    }
+}
+
+pub fn replay(ctx: &Ctx, case: &Value) {
+    install_quiet_hook();
+    let menu = menu();
+    let pools = pools(&menu);
+    let list = |k: &str| -> Vec<usize> {
+        case[k].as_array().map(|a| a.iter().filter_map(|v| v.as_u64().map(|x| x as usize)).collect()).unwrap_or_default()
+    };
+    let xp = case["exchange"].as_u64().unwrap_or(0) as usize;
+    let mut n = 0u64;
+    let viols: Vec<Viol> = match case["layer"].as_str() {
+        Some("map") => eval_map_layer(&menu, &pools, &list("seq"), Some(xp), &mut n).into_iter().flat_map(|(_, v)| v).collect(),
+        Some(layer @ ("indexer" | "manager" | "stream" | "applied")) => eval_deep(&menu, &pools, &list("set"), xp)
+            .map(|d| d.viols.into_iter().filter(|(l, _)| *l == layer).map(|(_, v)| v).collect())
+            .unwrap_or_default(),
+        other => {
+            eprintln!("MACHINERY: unknown C04 replay layer {other:?}");
+            std::process::exit(2)
+        }
+    };
+    for (sig, detail) in viols {
+        ctx.violate(sig, detail, case.clone());
+    }
 }
